@@ -201,6 +201,10 @@ func judgeScenario(prop string, sc *SchedScenario, res *UnitResult) *SchedResult
 		res.EngineError = "schedule replay diverged in scenario " + sc.Name + ": " + r.Diverged
 		return r
 	}
+	if r.Stuck {
+		res.Capped = "scenario " + sc.Name + ": a thread blocked in a construct the scheduler does not own (engine limitation, scenario abandoned)"
+		return r
+	}
 	if r.Capped {
 		res.Capped = fmt.Sprintf("scenario %q: execution cap %d reached", sc.Name, sc.MaxExec)
 	}
